@@ -17,7 +17,8 @@ META = dict(
          'parameter q with 1..2 values, a second integer parameter r with 2 '
          'values; default-style or custom templates) and graph lines / '
          'runtime headings assembled from symbolic node shapes (plain, <p>, '
-         '<p,q>, <q,p>, <p-1>, <p-1,q>, <p=V>, <q=V>, <p,r>, <p+1>) are '
+         '<p,q>, <q,p>, <p-1>, <p-1,q>, <p=V>, <q=V>, <p,r>, <p+1>, <q-1>, '
+         '<q-1,p>; the string list is deliberately not in sorted order) are '
          'passed to the real GraphExpander.expand, NameExpander.expand and '
          'GraphParser.parse_graph. z3 decides on every path that the '
          'expanded set equals the reference product: exactly one line / name '
@@ -33,8 +34,8 @@ META = dict(
                'NameExpander.expand', 'NameExpander._expand_name',
                'GraphParser.parse_graph (REC_NODE_OUT_OF_RANGE)',
                'item_in_iterable'],
-    bounds=['|p| in 1..3, |q| in 1..2, |r| = 2; two template styles; node '
-            'shapes: 10; lines: left node => right node (+ & third node); '
+    bounds=['|p| in 1..3, |q| in 1..3 (quick: 1 and 3), |r| = 2; two template styles; node '
+            'shapes: 12; lines: left node => right node (+ & third node); '
             'headings: one or two names'],
     stubs=['none'],
     assumptions=[],
@@ -44,7 +45,7 @@ META = dict(
 )
 
 P_ALL = [0, 1, 2]
-Q_ALL = ['cat', 'dog']
+Q_ALL = ['dog', 'cat', 'ant']      # string lists keep the user's order
 R_ALL = [5, 7]
 TEMPLATES = [
     {'p': '_p%(p)s', 'q': '_%(q)s', 'r': '_r%(r)s'},
@@ -65,6 +66,8 @@ SHAPES = [
     [('q', '=', 'dog')],
     [('p', 'v', None), ('r', 'v', None)],
     [('p', 'o', +1)],
+    [('q', 'o', -1)],
+    [('q', 'o', -1), ('p', 'v', None)],
 ]
 
 
@@ -190,13 +193,15 @@ def graph(np_: int, nq: int, ti: int, s1: int, s2: int, s3: int,
           amp: bool) -> bool:
     """
     pre: sl(s1=s1)
-    pre: 1 <= np_ <= 3 and 1 <= nq <= 2 and 0 <= ti <= 1
-    pre: 0 <= s1 < 10 and 0 <= s2 < 10 and 0 <= s3 < 10
+    pre: 1 <= np_ <= 3 and 1 <= nq <= 3 and 0 <= ti <= 1
+    pre: 0 <= s1 < 12 and 0 <= s2 < 12 and 0 <= s3 < 12
+    pre: SLICE.get('full', True) or (np_ != 2 and nq != 2)
     pre: amp or s3 == 0
     post: _
     """
-    np_, nq, ti = fork_int(np_, 1, 3), fork_int(nq, 1, 2), fork_int(ti, 0, 1)
-    s1, s2, s3 = fork_int(s1, 0, 9), fork_int(s2, 0, 9), fork_int(s3, 0, 9)
+    np_, nq, ti = fork_int(np_, 1, 3), fork_int(nq, 1, 3), fork_int(ti, 0, 1)
+    s1, s2, s3 = (fork_int(s1, 0, 11), fork_int(s2, 0, 11),
+                  fork_int(s3, 0, 11))
     amp = fork_bool(amp)
     with concrete():
         return _graph(np_, nq, ti, s1, s2, s3, amp)
@@ -204,12 +209,12 @@ def graph(np_: int, nq: int, ti: int, s1: int, s2: int, s3: int,
 
 def names(np_: int, nq: int, ti: int, s1: int, s2: int, two: bool) -> bool:
     """
-    pre: 1 <= np_ <= 3 and 1 <= nq <= 2 and 0 <= ti <= 1
+    pre: 1 <= np_ <= 3 and 1 <= nq <= 3 and 0 <= ti <= 1
     pre: s1 in (0, 1, 2, 3, 6, 7, 8) and s2 in (0, 1, 2, 3, 6, 7, 8)
     pre: two or s2 == 0
     post: _
     """
-    np_, nq, ti = fork_int(np_, 1, 3), fork_int(nq, 1, 2), fork_int(ti, 0, 1)
+    np_, nq, ti = fork_int(np_, 1, 3), fork_int(nq, 1, 3), fork_int(ti, 0, 1)
     s1, s2 = fork_int(s1, 0, 8), fork_int(s2, 0, 8)
     two = fork_bool(two)
     with concrete():
@@ -220,7 +225,7 @@ def OBLIGATIONS(tier):
     big = tier == 'thorough'
     t = 1200 if big else 170
     return [Ob(f'graph[left-shape={s}]', 'graph', timeout=t, twin=(s == 0),
-               slice={'s1': s}) for s in range(10)] + [
+               slice={'s1': s, 'full': big}) for s in range(12)] + [
         Ob('names', 'names', timeout=t)]
 
 
